@@ -26,9 +26,11 @@ Definition sv_enum_size (lo hi : Z) : Z :=
 Definition align_up (x a : Z) : Z := (x + a - 1) / a * a.
 Definition bytes_of_bits (b : Z) : Z := (b + 7) / 8.
 
-Record svstate := mksv { pos : Z (* next free bit *); salign : Z; sleaves : list leaf }.
+Record svstate := mksv { pos : Z (* next free bit *); salign : Z; sleaves : list leaf; smems : list mrec }.
 
-Record svlay := mksvl { sv_size : Z; sv_align : Z; sv_leaves : list leaf }.
+(* sv_mems: per member, in order: byte offset of the member (of the storage unit for a bit-field),
+   bit offset inside the unit and width (both -1 for non-bit-fields) *)
+Record svlay := mksvl { sv_size : Z; sv_align : Z; sv_leaves : list leaf; sv_mems : list mrec }.
 
 Definition sv_is_flex (t : ty) : bool := match t with TFlex _ => true | _ => false end.
 
@@ -39,7 +41,7 @@ Definition sv_struct_step (mk : mkind) (t : ty) (ml : svlay) (s : svstate) : svs
       let unit := 8 * sv_size ml in   (* bits of the declared type = its storage unit *)
       if w =? 0 then
         (* "zero-width bit-fields force the next member to the next unit boundary" *)
-        mksv (align_up (pos s) unit) (salign s) (sleaves s)
+        mksv (align_up (pos s) unit) (salign s) (sleaves s) (smems s ++ [mkmrec 0 0 0])
       else
         (* "bit-fields must be contained in a storage unit appropriate for its declared type":
            stay in the current unit when the field fits, otherwise start the next unit *)
@@ -50,6 +52,7 @@ Definition sv_struct_step (mk : mkind) (t : ty) (ml : svlay) (s : svstate) : svs
              (if named
               then sleaves s ++ [mkleaf (p / unit * sv_size ml) (p mod unit) w]
               else sleaves s)
+             (smems s ++ [mkmrec (p / unit * sv_size ml) (p mod unit) w])
   | _ =>
       (* "each member is assigned to the lowest available offset with the appropriate alignment" *)
       let off := align_up (bytes_of_bits (pos s)) (sv_align ml) in
@@ -60,16 +63,18 @@ Definition sv_struct_step (mk : mkind) (t : ty) (ml : svlay) (s : svstate) : svs
             | MNamed => mkleaf off (-1) (sv_size ml) :: shift_leaves off (sv_leaves ml)
             | _ => shift_leaves off (sv_leaves ml)
             end)
+           (smems s ++ [mkmrec off (-1) (-1)])
   end.
 
 (* one member of a union: everything starts at offset 0; [pos] keeps the greatest end *)
 Definition sv_union_step (mk : mkind) (t : ty) (ml : svlay) (s : svstate) : svstate :=
   match mk with
   | MBits w named =>
-      if w =? 0 then s
+      if w =? 0 then mksv (pos s) (salign s) (sleaves s) (smems s ++ [mkmrec 0 0 0])
       else mksv (Z.max (pos s) w)
                 (if named then Z.max (salign s) (sv_align ml) else salign s)
                 (if named then sleaves s ++ [mkleaf 0 0 w] else sleaves s)
+                (smems s ++ [mkmrec 0 0 w])
   | _ =>
       let sz := if sv_is_flex t then 0 else sv_size ml in
       mksv (Z.max (pos s) (8 * sz)) (Z.max (salign s) (sv_align ml))
@@ -78,15 +83,16 @@ Definition sv_union_step (mk : mkind) (t : ty) (ml : svlay) (s : svstate) : svst
             | MNamed => mkleaf 0 (-1) (sv_size ml) :: sv_leaves ml
             | _ => sv_leaves ml
             end)
+           (smems s ++ [mkmrec 0 (-1) (-1)])
   end.
 
 Fixpoint sysv_layout (t : ty) : svlay :=
   match t with
-  | TBasic k => mksvl (sv_scalar_size k) (sv_scalar_size k) []
-  | TPtr => mksvl 8 8 []
-  | TEnum lo hi => mksvl (sv_enum_size lo hi) (sv_enum_size lo hi) []
-  | TArr n el => let l := sysv_layout el in mksvl (sv_size l * n) (sv_align l) (sv_leaves l)
-  | TFlex el => let l := sysv_layout el in mksvl (sv_size l) (sv_align l) []
+  | TBasic k => mksvl (sv_scalar_size k) (sv_scalar_size k) [] []
+  | TPtr => mksvl 8 8 [] []
+  | TEnum lo hi => mksvl (sv_enum_size lo hi) (sv_enum_size lo hi) [] []
+  | TArr n el => let l := sysv_layout el in mksvl (sv_size l * n) (sv_align l) (sv_leaves l) []
+  | TFlex el => let l := sysv_layout el in mksvl (sv_size l) (sv_align l) [] []
   | TAgg u ms =>
       let fix go (ms : list (mkind * ty)) (s : svstate) : svstate :=
         match ms with
@@ -94,7 +100,7 @@ Fixpoint sysv_layout (t : ty) : svlay :=
         | (mk, mt) :: r =>
             go r ((if u then sv_union_step else sv_struct_step) mk mt (sysv_layout mt) s)
         end in
-      let s := go ms (mksv 0 1 []) in
+      let s := go ms (mksv 0 1 [] []) in
       (* "the size of any object is always a multiple of the object's alignment" (tail padding) *)
-      mksvl (align_up (bytes_of_bits (pos s)) (salign s)) (salign s) (sleaves s)
+      mksvl (align_up (bytes_of_bits (pos s)) (salign s)) (salign s) (sleaves s) (smems s)
   end.
